@@ -13,7 +13,7 @@ package soymsg
 // expression).  The only place a node is given another node's name is the
 // equivNodeToRepNodes entry; it is made only after comparing the two String()s.
 //@ func setPlaceholderNames
-//@   props C13 C03
+//@   props C13 C03 C10
 //@   nosafety
 //@   modifies *
 //@   ghost curN ast.Node = nil
@@ -25,12 +25,24 @@ package soymsg
 //@   at call ast.Node.String#1 set othN = arg0
 //@   at call ast.Node.String#1 after set othS = res
 //@   at call mapupdate#1 assert[named-alike-only-if-identical-source-text;C03] key == curN && val == othN && curS == othS
+//@   at call mapupdate#3 assert[unsuffixed-name-not-already-taken;C10] !haskey(m, key)
+//@   at call mapupdate#4 assert[suffixed-name-not-already-taken;C10] !haskey(m, key)
 //@   at call mapupdate#5 assert[representative-gets-the-name-it-is-filed-under;C03] haskey(nameToRepNodes, val) && nameToRepNodes[val] == key
 //@   at call mapupdate#6 assert[equivalent-node-gets-its-representative's-name;C03] haskey(equivNodeToRepNodes, key) && (haskey(m, equivNodeToRepNodes[key]) ==> val == m[equivNodeToRepNodes[key]])
 //@   loop 0
 //@     noterm
+//@     invariant[base-names-are-the-map's-keys] forall(j, 0, len(baseNames), haskey(baseNameToRepNodes, baseNames[j]))
+//@     invariant[base-names-listed-once] forall(j, 0, len(baseNames), forall(k, 0, j, !same(baseNames[j], baseNames[k])))
+//@   loop 2
+//@     invariant[base-names-are-the-map's-keys] forall(j, 0, len(baseNames), haskey(baseNameToRepNodes, baseNames[j]))
+//@     invariant[base-names-not-reached-yet-are-free;C10] forall(j, rangeindex + 1, len(baseNames), !haskey(nameToRepNodes, baseNames[j]))
+//@   loop 3
+//@     invariant[base-names-are-the-map's-keys] forall(j, 0, len(baseNames), haskey(baseNameToRepNodes, baseNames[j]))
+//@     invariant[base-names-not-reached-yet-are-free;C10] forall(j, rangeindex__loop2 + 2, len(baseNames), !haskey(nameToRepNodes, baseNames[j]))
 //@   loop 4
 //@     noterm
+//@     invariant[base-names-are-the-map's-keys] forall(j, 0, len(baseNames), haskey(baseNameToRepNodes, baseNames[j]))
+//@     invariant[base-names-not-reached-yet-are-free;C10] forall(j, rangeindex__loop2 + 2, len(baseNames), !haskey(nameToRepNodes, baseNames[j]))
 //@   loop 5
 //@     orderassume forallof(a, string, forallof(b, string, haskey(nameToRepNodes, a) && haskey(nameToRepNodes, b) && a != b ==> nameToRepNodes[a] != nameToRepNodes[b]))
 //@   loop 6
@@ -44,4 +56,45 @@ package soymsg
 //@   props C08 C09
 //@   nosafety
 //@   noterm
+//@   pure
+
+// C10 (also C08 / C09): the helpers of placeholder naming read the message
+// tree and build fresh strings and slices; they write nothing that exists.
+//@ func phNodes
+//@   props C10 C08 C09
+//@   nosafety
+//@   pure
+//@   ensures[work-list-is-new-memory] len(result) == 0 || fresh(result)
+//@   loop 0
+//@     invariant len(nodeQueue) == 0 && cap(nodeQueue) == 0 || fresh(nodeQueue)
+//@ func pluralCaseBodies
+//@   props C10 C08 C09
+//@   nosafety
+//@   pure
+//@   ensures[work-list-is-new-memory] len(result) == 0 || fresh(result)
+//@   loop 0
+//@     invariant len(r) == 0 && cap(r) == 0 || fresh(r)
+//@ func genBasePlaceholderName
+//@   props C10 C08 C09
+//@   nosafety
+//@   pure
+//@ func genBasePlaceholderNameFromExpr
+//@   props C10 C08 C09
+//@   nosafety
+//@   pure
+//@ func genBasePlaceholderNameFromHtml
+//@   props C10 C08 C09
+//@   nosafety
+//@   pure
+//@ func tagName
+//@   props C10 C08 C09
+//@   nosafety
+//@   pure
+//@ func isAlphaNumeric
+//@   props C10
+//@   pure
+//@   ensures result == (65 <= r && r <= 90 || 97 <= r && r <= 122 || 48 <= r && r <= 57)
+//@ func toUpperUnderscore
+//@   props C10 C08 C09
+//@   nosafety
 //@   pure
